@@ -26,6 +26,62 @@ def de_oracle(d1, d2, t):
     return 1 if abs(d1 - d2) <= t else 0
 
 
+def assert_rules(prog, run, rid, shell="UtestShell"):
+    """every assert entry point folded on operand cases against its predicate: countCheck exactly once and first, a failure recorded
+    (once, never returning) iff the predicate is false, operands reach the failure object in (expected, actual) order. Shared with C01
+    (the summary's check count and the failure count are what these functions record)."""
+    fold_assert, TABLE = assert_family(prog, shell)
+    found = 0
+    for name in sorted(TABLE) + ["assertDoublesEqual"]:
+        fs = prog.fns("%s::%s" % (shell, name))
+        if len(fs) != 1:
+            run.broke("assert function %s::%s not found (or overloaded: %d)" % (shell, name, len(fs)))
+            continue
+        f = fs[0]
+        found += 1
+        run.analysed(f)
+        try:
+            if name == "assertDoublesEqual":
+                for de_, want in ((1, False), (0, True)):
+                    log, ctor = fold_assert(f, (1.5, 2.5, 0.25), {"doubles_equal": de_})
+                    calls = [x for x in log if isinstance(x, tuple)]
+                    flat = [x for x in log if not isinstance(x, tuple)]
+                    why = ""
+                    if flat.count("check") != 1 or flat[:1] != ["check"]:
+                        why = "countCheck called %d times (first action %s)" % (flat.count("check"), flat[:1])
+                    elif [c[1] for c in calls] != [(1.5, 2.5, 0.25)]:
+                        why = "doubles_equal is asked about %s, expected (expected, actual, threshold) = (1.5, 2.5, 0.25)" % ([c[1] for c in calls],)
+                    elif (flat.count("fail") == 1) != want:
+                        why = "records %s although doubles_equal answers %d" % ("a failure" if "fail" in flat else "no failure", de_)
+                    run.ob(rid, "%s folded [doubles_equal answers %d]" % (name, de_), f.site, not why, witness=log if not why else why, what=why)
+                continue
+            bad, ncase, order_bad = None, 0, None
+            for vals, want, desc in TABLE[name](f):
+                ncase += 1
+                log, ctor = fold_assert(f, vals)
+                why = ""
+                if log.count("check") != 1:
+                    why = "countCheck called %d times" % log.count("check")
+                elif log[0] != "check":
+                    why = "failure recorded before the check is counted"
+                elif (log.count("fail") == 1) != bool(want) or log.count("fail") > 1:
+                    why = "records %s although the predicate is %s" % ("a failure" if "fail" in log else "no failure", "false" if want else "true")
+                if why and bad is None:
+                    bad = "%s%s: %s" % (name, desc, why)
+                if want and ctor and len(vals) >= 2 and vals[0] != vals[1] and name not in ("assertTrue", "assertCompare", "fail"):
+                    args = ctor[-1]
+                    ie = [i_ for i_, x in enumerate(args) if x == (vals[1] if name == "assertEquals" else vals[0])]
+                    ia = [i_ for i_, x in enumerate(args) if x == (vals[2] if name == "assertEquals" else vals[1])]
+                    if ie and ia and min(ie) > min(ia) and order_bad is None:
+                        order_bad = "%s%s: the failure object is built from %s: the failure text would show the operands swapped" % (name, desc, args)
+            run.ob(rid, "%s folded on %d operand cases: countCheck exactly once and first; a failure is recorded (once, never returning) iff the predicate is false" % (name, ncase), f.site, bad is None, witness=bad or "%d cases" % ncase, what=bad or "")
+            if name not in ("assertTrue", "assertCompare", "fail"):
+                run.ob(rid, "%s passes (expected, actual) to its failure object in that order" % name, f.site, order_bad is None, witness=order_bad or "ok", what=order_bad or "")
+        except Unknown as u:
+            run.broke("%s.%s: %s cannot be folded: %s" % (run.pid, rid, name, u))
+    return found
+
+
 def doubles_equal_rule(prog, run, rid):
     """doubles_equal folded over the floating-point class partition x thresholds against the IEEE oracle; the isinf seam answers 1
     for both infinities (the C++ <cmath> contract: non-zero, no sign). Shared with C09 (double parameters compare through it)."""
@@ -245,55 +301,7 @@ def check(ctx, run):
     string_query_rule(prog, run, "R6", "equalsNoCase", lambda a, b: 1 if a.lower() == b.lower() else 0, "true iff equal up to the case of the letters (a proper prefix is not equal)", maxlen=2, alpha=(97, 65, 98))
     string_query_rule(prog, run, "R6", "containsNoCase", lambda a, b: 1 if b.lower() in a.lower() else 0, "true iff the argument occurs up to the case of the letters", maxlen=2, alpha=(97, 65, 98))
     # ---------------- R1 ----------------------------------------------------
-    fold_assert, TABLE = assert_family(prog, shell)
-    found = 0
-    for name in sorted(TABLE) + ["assertDoublesEqual"]:
-        fs = prog.fns("%s::%s" % (shell, name))
-        if len(fs) != 1:
-            run.broke("assert function %s::%s not found (or overloaded: %d)" % (shell, name, len(fs)))
-            continue
-        f = fs[0]
-        found += 1
-        run.analysed(f)
-        try:
-            if name == "assertDoublesEqual":
-                for de_, want in ((1, False), (0, True)):
-                    log, ctor = fold_assert(f, (1.5, 2.5, 0.25), {"doubles_equal": de_})
-                    calls = [x for x in log if isinstance(x, tuple)]
-                    flat = [x for x in log if not isinstance(x, tuple)]
-                    why = ""
-                    if flat.count("check") != 1 or flat[:1] != ["check"]:
-                        why = "countCheck called %d times (first action %s)" % (flat.count("check"), flat[:1])
-                    elif [c[1] for c in calls] != [(1.5, 2.5, 0.25)]:
-                        why = "doubles_equal is asked about %s, expected (expected, actual, threshold) = (1.5, 2.5, 0.25)" % ([c[1] for c in calls],)
-                    elif (flat.count("fail") == 1) != want:
-                        why = "records %s although doubles_equal answers %d" % ("a failure" if "fail" in flat else "no failure", de_)
-                    run.ob("R1", "%s folded [doubles_equal answers %d]" % (name, de_), f.site, not why, witness=log if not why else why, what=why)
-                continue
-            bad, ncase, order_bad = None, 0, None
-            for vals, want, desc in TABLE[name](f):
-                ncase += 1
-                log, ctor = fold_assert(f, vals)
-                why = ""
-                if log.count("check") != 1:
-                    why = "countCheck called %d times" % log.count("check")
-                elif log[0] != "check":
-                    why = "failure recorded before the check is counted"
-                elif (log.count("fail") == 1) != bool(want) or log.count("fail") > 1:
-                    why = "records %s although the predicate is %s" % ("a failure" if "fail" in log else "no failure", "false" if want else "true")
-                if why and bad is None:
-                    bad = "%s%s: %s" % (name, desc, why)
-                if want and ctor and len(vals) >= 2 and vals[0] != vals[1] and name not in ("assertTrue", "assertCompare", "fail"):
-                    args = ctor[-1]
-                    ie = [i_ for i_, x in enumerate(args) if x == (vals[1] if name == "assertEquals" else vals[0])]
-                    ia = [i_ for i_, x in enumerate(args) if x == (vals[2] if name == "assertEquals" else vals[1])]
-                    if ie and ia and min(ie) > min(ia) and order_bad is None:
-                        order_bad = "%s%s: the failure object is built from %s: the failure text would show the operands swapped" % (name, desc, args)
-            run.ob("R1", "%s folded on %d operand cases: countCheck exactly once and first; a failure is recorded (once, never returning) iff the predicate is false" % (name, ncase), f.site, bad is None, witness=bad or "%d cases" % ncase, what=bad or "")
-            if name not in ("assertTrue", "assertCompare", "fail"):
-                run.ob("R1", "%s passes (expected, actual) to its failure object in that order" % name, f.site, order_bad is None, witness=order_bad or "ok", what=order_bad or "")
-        except Unknown as u:
-            run.broke("C03.R1: %s cannot be folded: %s" % (name, u))
+    found = assert_rules(prog, run, "R1", shell)
     for _ in range(0):
         pass
     # ---------------- R2 ----------------------------------------------------
